@@ -456,6 +456,178 @@ theorem zip_rejections (it : Iter) (d1 d2 : Deque) (x y : Nat) (m : Mem) (h1 : d
   · have hoor : decIdx it.index ≥ d1.size := by unfold decIdx; rw [if_pos h0]; omega
     unfold zipReplace; rw [if_pos (Or.inl hoor)]
 
+/-! ## zip iterator programs -/
+
+inductive ZOp where
+  | next | remove | add (x y : Nat) | replace (x y : Nat) | index
+
+structure ZOut where
+  st   : Option Stat
+  pair : Option (Nat × Nat)
+  idx  : Option Nat
+  deriving DecidableEq, Repr
+
+/-- one zip-iterator call on the model -/
+def stepZ (it : Iter) (d1 d2 : Deque) (m : Mem) : ZOp → ZOut × Iter × Deque × Deque × Mem
+  | .next => let r := zipNext it d1 d2 m; (⟨some r.1, r.2.1, none⟩, r.2.2.1, d1, d2, r.2.2.2)
+  | .remove => let r := zipRemove it d1 d2 m; (⟨some r.1, r.2.1, none⟩, r.2.2.1, r.2.2.2.1, r.2.2.2.2.1, r.2.2.2.2.2)
+  | .add x y => let r := zipAdd it d1 d2 x y m; (⟨some r.1, none, none⟩, r.2.1, r.2.2.1, r.2.2.2.1, r.2.2.2.2)
+  | .replace x y => let r := zipReplace it d1 d2 x y m; (⟨some r.1, r.2.1, none⟩, it, r.2.2.1, r.2.2.2.1, r.2.2.2.2)
+  | .index => (⟨none, none, some (iterIndex it)⟩, it, d1, d2, m)
+
+/-- the same call on the ideal pair cursor -/
+def stepZC (c : DequeSpec.Cur) (l1 l2 : List Nat) : ZOp → ZOut × DequeSpec.Cur × List Nat × List Nat
+  | .next => let r := DequeSpec.zipNext l1 l2 c; (⟨some r.1, r.2.1, none⟩, r.2.2, l1, l2)
+  | .remove => let r := DequeSpec.zipRemove l1 l2 c; (⟨some r.1, r.2.1, none⟩, r.2.2.2.2, r.2.2.1, r.2.2.2.1)
+  | .add x y => let r := DequeSpec.zipAdd l1 l2 c x y; (⟨some r.1, none, none⟩, r.2.2.2, r.2.1, r.2.2.1)
+  | .replace x y => let r := DequeSpec.zipReplace l1 l2 c x y; (⟨some r.1, r.2.1, none⟩, c, r.2.2.1, r.2.2.2)
+  | .index => (⟨none, none, some (decIdx c.pos)⟩, c, l1, l2)
+
+def blockedZ (it : Iter) (d1 d2 : Deque) (m : Mem) (op : ZOp) : Bool := (stepZ it d1 d2 m op).1.st == some .errAlloc
+
+def stepZCB (c : DequeSpec.Cur) (l1 l2 : List Nat) (ob : ZOp × Bool) : ZOut × DequeSpec.Cur × List Nat × List Nat :=
+  if ob.2 then (⟨some .errAlloc, none, none⟩, c, l1, l2) else stepZC c l1 l2 ob.1
+
+def runZ (it : Iter) (d1 d2 : Deque) (m : Mem) : List ZOp → List ZOut × Iter × Deque × Deque × Mem
+  | [] => ([], it, d1, d2, m)
+  | op :: ops =>
+    let r := stepZ it d1 d2 m op
+    let rs := runZ r.2.1 r.2.2.1 r.2.2.2.1 r.2.2.2.2 ops
+    (r.1 :: rs.1, rs.2.1, rs.2.2.1, rs.2.2.2.1, rs.2.2.2.2)
+
+def runZCB (c : DequeSpec.Cur) (l1 l2 : List Nat) : List (ZOp × Bool) → List ZOut × DequeSpec.Cur × List Nat × List Nat
+  | [] => ([], c, l1, l2)
+  | ob :: obs =>
+    let r := stepZCB c l1 l2 ob
+    let rs := runZCB r.2.1 r.2.2.1 r.2.2.2 obs
+    (r.1 :: rs.1, rs.2.1, rs.2.2.1, rs.2.2.2)
+
+def flagsZ (it : Iter) (d1 d2 : Deque) (m : Mem) : List ZOp → List Bool
+  | [] => []
+  | op :: ops => blockedZ it d1 d2 m op ::
+      flagsZ (stepZ it d1 d2 m op).2.1 (stepZ it d1 d2 m op).2.2.1 (stepZ it d1 d2 m op).2.2.2.1 (stepZ it d1 d2 m op).2.2.2.2 ops
+
+def inD3Z (pos n1 n2 : Nat) : ZOp → Prop
+  | .add _ _ => (1 ≤ pos ∧ pos + 1 ≤ n1 / 2) ∨ (1 ≤ pos ∧ pos + 1 ≤ n2 / 2)
+  | _ => False
+
+def d3FreeZ (c : DequeSpec.Cur) (l1 l2 : List Nat) : List (ZOp × Bool) → Prop
+  | [] => True
+  | ob :: obs => (ob.2 = false → ¬ inD3Z c.pos l1.length l2.length ob.1) ∧
+      d3FreeZ (stepZCB c l1 l2 ob).2.1 (stepZCB c l1 l2 ob).2.2.1 (stepZCB c l1 l2 ob).2.2.2 obs
+
+theorem stepZC_never_errAlloc (c : DequeSpec.Cur) (l1 l2 : List Nat) (op : ZOp) : (stepZC c l1 l2 op).1.st ≠ some .errAlloc := by
+  cases op with
+  | next => simp only [stepZC, DequeSpec.zipNext]; cases l1[c.pos]? <;> cases l2[c.pos]? <;> simp
+  | remove =>
+    simp only [stepZC, DequeSpec.zipRemove]
+    split
+    · simp
+    split
+    · simp
+    cases l1[c.pos - 1]? <;> cases l2[c.pos - 1]? <;> simp
+  | add x y => simp only [stepZC, DequeSpec.zipAdd]; split <;> simp
+  | replace x y =>
+    simp only [stepZC, DequeSpec.zipReplace]
+    split
+    · simp
+    cases l1[c.pos - 1]? <;> cases l2[c.pos - 1]? <;> simp
+  | index => simp [stepZC]
+
+/-- one zip call: refines the ideal pair cursor when executed (partial on D3 for `add`), is the identity on
+both contents and the cursor when blocked; invariants and ledger intact either way -/
+theorem zip_step_refines_partial (it : Iter) (d1 d2 : Deque) (m : Mem) (op : ZOp) (h1 : d1.Inv) (h2 : d2.Inv)
+    (hD3 : blockedZ it d1 d2 m op = false → ¬ inD3Z it.index d1.size d2.size op) :
+    (stepZ it d1 d2 m op).1 = (stepZCB it.cur d1.abs d2.abs (op, blockedZ it d1 d2 m op)).1 ∧
+    (stepZ it d1 d2 m op).2.1.cur = (stepZCB it.cur d1.abs d2.abs (op, blockedZ it d1 d2 m op)).2.1 ∧
+    (stepZ it d1 d2 m op).2.2.1.abs = (stepZCB it.cur d1.abs d2.abs (op, blockedZ it d1 d2 m op)).2.2.1 ∧
+    (stepZ it d1 d2 m op).2.2.2.1.abs = (stepZCB it.cur d1.abs d2.abs (op, blockedZ it d1 d2 m op)).2.2.2 ∧
+    (stepZ it d1 d2 m op).2.2.1.Inv ∧ (stepZ it d1 d2 m op).2.2.2.1.Inv ∧
+    memSame2 d1.triple d2.triple (stepZ it d1 d2 m op).2.2.2.2 m := by
+  -- an operation other than `add` is never blocked: its status is the ideal cursor's
+  have hnb : ∀ op', (stepZ it d1 d2 m op').1.st = (stepZC it.cur d1.abs d2.abs op').1.st → blockedZ it d1 d2 m op' = false := by
+    intro op' h
+    unfold blockedZ
+    rw [h]
+    cases hb : ((stepZC it.cur d1.abs d2.abs op').1.st == some Stat.errAlloc)
+    · rfl
+    · exact absurd (by simpa using hb) (stepZC_never_errAlloc it.cur d1.abs d2.abs op')
+  cases op with
+  | next =>
+    obtain ⟨a1, a2, a3, a4⟩ := zipNext_spec it d1 d2 m h1 h2
+    have hb := hnb .next (by simp only [stepZ, stepZC, a1])
+    rw [hb]
+    simp only [stepZ, stepZCB, stepZC, Bool.false_eq_true, if_false, a1, a2]
+    exact ⟨trivial, a3, trivial, trivial, h1, h2, by rw [a4]; exact memSame2_refl _ _ m⟩
+  | remove =>
+    obtain ⟨a1, a2, a3, a4, a5, a6, a7, a8⟩ := zipRemove_spec it d1 d2 m h1 h2
+    have hb := hnb .remove (by simp only [stepZ, stepZC, a1])
+    rw [hb]
+    simp only [stepZ, stepZCB, stepZC, Bool.false_eq_true, if_false, a1, a2]
+    exact ⟨trivial, a5, a3, a4, a6, a7, by rw [a8]; exact memSame2_refl _ _ m⟩
+  | replace x y =>
+    obtain ⟨a1, a2, a3, a4, a5, a6, a7⟩ := zipReplace_spec it d1 d2 x y m h1 h2
+    have hb := hnb (.replace x y) (by simp only [stepZ, stepZC, a1])
+    rw [hb]
+    simp only [stepZ, stepZCB, stepZC, Bool.false_eq_true, if_false, a1, a2]
+    exact ⟨trivial, trivial, a3, a4, a5, a6, by rw [a7]; exact memSame2_refl _ _ m⟩
+  | index =>
+    have hb : blockedZ it d1 d2 m .index = false := by simp [blockedZ, stepZ]
+    rw [hb]
+    exact ⟨rfl, rfl, rfl, rfl, h1, h2, memSame2_refl _ _ m⟩
+  | add x y =>
+    obtain ⟨z1, z2, z3, z4, _⟩ := zipAdd_safe it d1 d2 x y m h1 h2
+    cases hb : blockedZ it d1 d2 m (.add x y)
+    · have hd := hD3 hb
+      simp only [inD3Z, not_or] at hd
+      rcases zipAdd_refines_partial it d1 d2 x y m h1 h2 hd.1 hd.2 with ⟨a1, a2, a3, a4, _⟩ | ⟨a1, _⟩
+      · simp only [stepZ, stepZCB, stepZC, Bool.false_eq_true, if_false, a1]
+        exact ⟨trivial, a4, a2, a3, z1, z2, z3⟩
+      · exfalso
+        unfold blockedZ at hb
+        simp only [stepZ, a1] at hb
+        simp at hb
+    · have hst : (zipAdd it d1 d2 x y m).1 = .errAlloc := by
+        unfold blockedZ at hb; simpa [stepZ] using hb
+      obtain ⟨b1, b2, b3⟩ := z4 (by rw [hst]; decide)
+      simp only [stepZ, stepZCB, if_true, hst]
+      exact ⟨trivial, by rw [b3], b1, b2, z1, z2, z3⟩
+
+/-- **zip program_refines, every refusal schedule (partial on D3)**: any program of zip-iterator calls over
+two deques in any layouts (each on its own allocator triple) returns what the ideal pair cursor returns when
+told which `add`s were blocked; lock-step traversal stops at the shorter deque, mutators act on the pair
+yielded last, contents of both deques are the ideal ones, both invariants and the ledger are intact -/
+theorem zip_program_refines_sched_partial (ops : List ZOp) (it : Iter) (d1 d2 : Deque) (m : Mem)
+    (h1 : d1.Inv) (h2 : d2.Inv)
+    (hfree : d3FreeZ it.cur d1.abs d2.abs (ops.zip (flagsZ it d1 d2 m ops))) :
+    (runZ it d1 d2 m ops).1 = (runZCB it.cur d1.abs d2.abs (ops.zip (flagsZ it d1 d2 m ops))).1 ∧
+    (runZ it d1 d2 m ops).2.1.cur = (runZCB it.cur d1.abs d2.abs (ops.zip (flagsZ it d1 d2 m ops))).2.1 ∧
+    (runZ it d1 d2 m ops).2.2.1.abs = (runZCB it.cur d1.abs d2.abs (ops.zip (flagsZ it d1 d2 m ops))).2.2.1 ∧
+    (runZ it d1 d2 m ops).2.2.2.1.abs = (runZCB it.cur d1.abs d2.abs (ops.zip (flagsZ it d1 d2 m ops))).2.2.2 ∧
+    (runZ it d1 d2 m ops).2.2.1.Inv ∧ (runZ it d1 d2 m ops).2.2.2.1.Inv ∧
+    memSame2 d1.triple d2.triple (runZ it d1 d2 m ops).2.2.2.2 m := by
+  induction ops generalizing it d1 d2 m with
+  | nil => exact ⟨rfl, rfl, rfl, rfl, h1, h2, memSame2_refl _ _ m⟩
+  | cons op ops ih =>
+    simp only [flagsZ, List.zip_cons_cons, d3FreeZ] at hfree
+    obtain ⟨hf1, hf2⟩ := hfree
+    rw [abs_length, abs_length] at hf1
+    obtain ⟨s1, s2, s3, s4, s5, s6, s7⟩ := zip_step_refines_partial it d1 d2 m op h1 h2 hf1
+    have htr : (stepZ it d1 d2 m op).2.2.1.triple = d1.triple ∧ (stepZ it d1 d2 m op).2.2.2.1.triple = d2.triple := by
+      cases op with
+      | next => exact ⟨rfl, rfl⟩
+      | remove => exact zipRemove_triple it d1 d2 m
+      | add x y => exact zipAdd_triple it d1 d2 x y m
+      | replace x y => exact zipReplace_triple it d1 d2 x y m
+      | index => exact ⟨rfl, rfl⟩
+    rw [← s2, ← s3, ← s4] at hf2
+    obtain ⟨r1, r2, r3, r4, r5, r6, r7⟩ := ih (stepZ it d1 d2 m op).2.1 (stepZ it d1 d2 m op).2.2.1
+      (stepZ it d1 d2 m op).2.2.2.1 (stepZ it d1 d2 m op).2.2.2.2 s5 s6 hf2
+    simp only [runZ, flagsZ, List.zip_cons_cons, runZCB]
+    rw [s2, s3, s4] at r1 r2 r3 r4
+    rw [htr.1, htr.2] at r7
+    exact ⟨by rw [s1, r1], r2, r3, r4, r5, r6, memSame2_trans r7 s7⟩
+
 /-- non-vacuity: a wrapped, exactly full ring is traversed completely -/
 example : (drain (Deque.mk 4 4 3 3 [12, 13, 14, 11] .conf) 4 {} {}).1 = [11, 12, 13, 14] := by decide
 
